@@ -139,6 +139,6 @@ def simplify(trace):
             for nv in (2, v // 2, v - 1):
                 if 2 <= nv < v:
                     p2 = dict(params, **{k: nv})
-                    if spec["cls"] == "MACD" and p2["fast_period"] >= p2["slow_period"]:
+                    if spec["cls"] == "MACD" and p2["fast_period"] == p2["slow_period"]:
                         continue
                     yield dict(trace, config=dict(cfg, spec=dict(spec, params=p2)))
